@@ -64,6 +64,7 @@ class Report:
         self.functions = set()      # functions / classes under contract
         self.samples = []
         self.extra = {}
+        self.child_access = set()
 
     # ---- intake
     def add_fragment_results(self, results, clause_filter=None):
@@ -73,6 +74,7 @@ class Report:
                 self.errors.append((unit, 'crash', r['crash'][-600:]))
                 continue
             self.units[unit] = {'vcs': len(r['verdicts']), 'paths': r.get('paths', 0), 'wall': r.get('wall', 0)}
+            self.child_access.update(tuple(a) for a in r.get('child_access', []))
             if r.get('error'):
                 self.errors.append((unit, r['error'][0], r['error'][1]))
             for v in r['verdicts']:
